@@ -280,7 +280,22 @@ contract(
     ensures={"value": "result == origin_height_of(self, font)"},
 )
 
-_IDENT = Val(Ref("Transform"), z3.Const("c15_Identity", T.RefSort))
+class _IdentityVal(Val):
+    """the module constant Identity: a Transform reference in the logic; at run time (clauses are evaluated natively with the
+    contract's globals in scope) it behaves like the tuple (1, 0, 0, 1, 0, 0)"""
+
+    xx, xy, yx, yy, dx, dy = 1, 0, 0, 1, 0, 0
+
+    def __eq__(self, o):
+        try:
+            return tuple(o) == (1, 0, 0, 1, 0, 0)
+        except TypeError:
+            return NotImplemented
+
+    __hash__ = object.__hash__
+
+
+_IDENT = _IdentityVal(Ref("Transform"), z3.Const("c15_Identity", T.RefSort))
 _IDENT_REQ = "Identity.xx == 1 and Identity.xy == 0 and Identity.yx == 0 and Identity.yy == 1 and Identity.dx == 0 and Identity.dy == 0"
 _O = "self.options"
 _SXp, _SYp = f"({_O}.ScaleX / 100)", f"({_O}.ScaleY / 100)"
